@@ -579,6 +579,16 @@ def non_ascii(db, rng, text_level, comment_level, unit_max=100):
                     s.values[k] = rng.choice(NA_WORDS[text_level])
 
 
+def move_multiplexer(db, rng):
+    """canmatrix writes the signals of a frame in list order; a multiplexer that is not the first signal gives SG_ m<k> lines in
+    front of the SG_ .. M line, so that a cut can fall between them"""
+    for fr in db.frames:
+        idx = [i for i, s in enumerate(fr.signals) if s.multiplex == "Multiplexor"]
+        if idx and len(fr.signals) > 1 and rng.random() < 0.6:
+            s = fr.signals.pop(idx[0])
+            fr.signals.insert(rng.randrange(1, len(fr.signals) + 1), s)
+
+
 def make_files(rng, n_dbc, n_sym, C, n_enc=(3, 2, 3)):
     F = impl()
     out = []
@@ -590,6 +600,7 @@ def make_files(rng, n_dbc, n_sym, C, n_enc=(3, 2, 3)):
                 db = matgen.gen_matrix(rng, C, **dict(DBC_FEATURES, n_frames=(1, 3) if k == 0 else (2, 4)))
                 non_ascii(db, rng, tl, cl)
                 multiline_comments(db, rng)
+                move_multiplexer(db, rng)
             else:
                 db = matgen.gen_matrix(rng, C, **dict(SYM_FEATURES, n_frames=(1, 3) if k == 0 else (2, 4)))
                 non_ascii(db, rng, tl, cl, unit_max=16)
@@ -606,6 +617,8 @@ def make_files(rng, n_dbc, n_sym, C, n_enc=(3, 2, 3)):
     for k in range(n_dbc):
         db = matgen.gen_matrix(rng, C, **DBC_FEATURES)
         multiline_comments(db, rng)
+        if k % 2:
+            move_multiplexer(db, rng)
         b = io.BytesIO()
         F.dump(db, b, "dbc")
         out.append(dict(fmt="dbc", name="gen-dbc-%d" % k, data=b.getvalue(), generated=True, ecus=[e.name[:32] for e in db.ecus]))
@@ -822,13 +835,16 @@ def check_inserts(f, st, inserts):
             out.append(("badline-changes-result", "inserted %s line(s) change what the reader returns" % "/".join(kinds),
                         "normal form of the clean file", [list(map(str, d)) for d in df[:4]]))
     if fmt == "sym":
-        # an undecodable line is recorded wherever it stands: the reader decodes before it looks at the section
-        want = st["nerr"] + sum(1 for pi, k, l in inserts
-                                if k == "undecodable" or (k in ("truncated", "wrongtype") and f["sections"][pi] == "frames"
-                                                          and not l.startswith(SYM_LOAD_ERROR_EXEMPT)))
-        if len(db.load_errors) != want:
-            out.append(("badline-not-recorded", "load_errors does not hold one entry per statement that failed to parse", want,
-                        len(db.load_errors)))
+        # "records statements that fail to parse": one entry for every inserted statement of a known kind inside a frame section that
+        # cannot be parsed (truncated, wrong field type, undecodable).  Whether a reader also records an unknown keyword, an ignored
+        # Type value or a bad line in the header / {ENUMS} part is not said: any number up to one per inserted line is accepted there.
+        must = sum(1 for pi, k, l in inserts
+                   if k in ("truncated", "wrongtype", "undecodable") and f["sections"][pi] == "frames"
+                   and not l.startswith(SYM_LOAD_ERROR_EXEMPT))
+        lo, hi = st["nerr"] + must, st["nerr"] + len(inserts)
+        if not lo <= len(db.load_errors) <= hi:
+            out.append(("badline-not-recorded", "load_errors does not hold one entry per statement that failed to parse",
+                        "%d..%d" % (lo, hi), len(db.load_errors)))
     return out, data2
 
 
@@ -990,6 +1006,10 @@ def witnesses(chk):
         chk.count("witness-replays")
         inp = dict(file="witness.dbc", format="dbc", inserted=[dict(kind=kind, line=line)], faulted_file_b64=b64(data),
                    theorem="C20_dbc_orig_fail_before_mutation_refuted / C20_dbc_orig_post_total_refuted")
+        if kind == "dangling":
+            # a well-formed statement naming an object that does not exist is none of the property's fault kinds: observed, not judged
+            chk.count("witness-dangling-" + ("raises" if err else ("changes-result" if matgen.diff(nf0, nf_of(db)) else "skipped")))
+            continue
         if err:
             chk.violation(fkey("dbc", "typed-raises" if kind == "typed" else "badline-raises", line, kind),
                           "an exception escapes loads() (witness of the refuted theorem about the reader as found)", inp, "no exception", err)
@@ -1002,9 +1022,7 @@ def witnesses(chk):
     db, err = load(data, "dbc")
     lost = err is None and [s.name for f in db.frames for s in f.signals] == []
     chk.count("envelope-witness-inside-signal-list-loses-signals" if lost else "envelope-witness-not-reproduced")
-    if not lost:
-        chk.tie_break("envelope-witness", "CM_ SG_ 999 .. between BO_ and SG_", "signals lost (loop variable frame = None)",
-                      err or [s.name for f in db.frames for s in f.signals])
+    # (observation only: positions inside a signal list are outside the quantifier, a reader may well cope with them)
     clean, err = load(WITNESS_SYM + b"Var=WitSig unsigned 8,8\n", "sym")
     nf0 = nf_of(clean)
     for line, full in (("Mux=WitMux 0,4 zz", WITNESS_SYM + b"Mux=WitMux 0,4 zz\nVar=WitSig unsigned 8,8\n"),
@@ -1315,7 +1333,10 @@ def parse_model_dbc(out):
 
 
 def compare_dbc(model, db, err, I):
-    """list of differences between the model's final state and what the real reader returned"""
+    """Differences between the model's final state and what the real reader returned, on what the property names: load succeeds or
+    raises; frames by identifier and name; signals with name, placement, byte order, sign, factor, offset.  What well-formed
+    statements attach (comments, attributes, value descriptions, multiplexing roles and ranges, cycle time) is the subject of the
+    'as if the bad lines were absent' sentence and is tied relative to the clean file (attach_dbc / tie), not in its representation."""
     D = matgen.D
     if err:
         return ["reader raised " + err] if model["post"] != [-2] else []
@@ -1327,42 +1348,29 @@ def compare_dbc(model, db, err, I):
         return ["frame count %d vs %d" % (len(model["frames"]), len(db.frames))]
     for k, (mf, rf) in enumerate(zip(model["frames"], db.frames)):
         where = "frame %d" % k
-        got = (rf.arbitration_id.id, bool(rf.arbitration_id.extended), rf.name, int(rf.size), bool(rf.is_complex_multiplexed),
-               rf.comment or None)
-        exp = (mf["id"], mf["ext"], txt(mf["name"]), mf["size"], mf["complex"], None if mf["comment"] < 0 else txt(mf["comment"]))
+        got = (rf.arbitration_id.id, bool(rf.arbitration_id.extended), rf.name)
+        exp = (mf["id"], mf["ext"], txt(mf["name"]))
         if got != exp:
             diffs.append("%s: %r vs %r" % (where, exp, got))
-        cyc = model["post"][k]
-        expc = 0 if cyc < 0 else int(float(txt(cyc)))
-        if int(rf.cycle_time) != expc:
-            diffs.append("%s cycle time %r vs %r" % (where, expc, rf.cycle_time))
-        if sorted(txt(c) for c in mf["attrs"]) != sorted(rf.attributes):
-            diffs.append("%s attributes %r vs %r" % (where, sorted(txt(c) for c in mf["attrs"]), sorted(rf.attributes)))
-        else:
-            for c, (tag, v) in mf["attrs"].items():
-                raw = txt(v)
-                real = str(rf.attributes[txt(c)])
-                d = db.frame_defines.get(txt(c))
-                if real not in (raw, raw[1:-1]) and not (d is not None and d.type == "ENUM"):
-                    diffs.append("%s attribute %s %r vs %r" % (where, txt(c), raw, real))
         if len(mf["signals"]) != len(rf.signals):
             diffs.append("%s signal count %d vs %d" % (where, len(mf["signals"]), len(rf.signals)))
             continue
         for ms, rs in zip(mf["signals"], rf.signals):
-            mux = rs.multiplex
-            mux = -1 if mux is None else (-2 if mux == "Multiplexor" else int(mux))
             raw_start = int(rs.start_bit) if rs.is_little_endian else flip(int(rs.start_bit))
             got = (rs.name, raw_start, int(rs.size), bool(rs.is_little_endian), bool(rs.is_signed), matgen._dec_str(rs.factor),
-                   matgen._dec_str(rs.offset), mux, rs.comment or None, {int(a): b for a, b in rs.values.items()},
-                   [list(map(int, r)) for r in rs.mux_val_grp])
+                   matgen._dec_str(rs.offset))
             exp = (txt(ms["name"]), ms["start"], ms["size"], ms["le"], ms["signed"], matgen._dec_str(D(txt(ms["factor"]))),
-                   matgen._dec_str(D(txt(ms["offset"]))), ms["mux"], None if ms["comment"] < 0 else txt(ms["comment"]),
-                   {a: txt(b) for a, b in ms["values"].items()}, ms["ranges"])
+                   matgen._dec_str(D(txt(ms["offset"]))))
             if got != exp:
                 diffs.append("%s signal %s: %r vs %r" % (where, rs.name, exp, got))
-            if sorted(txt(c) for c in ms["attrs"]) != sorted(rs.attributes):
-                diffs.append("%s signal %s attributes %r vs %r" % (where, rs.name, sorted(txt(c) for c in ms["attrs"]), sorted(rs.attributes)))
     return diffs
+
+
+def attach_dbc(model):
+    """everything of the model's final state that is not skeleton, as a comparable value (model side of the relative tie)"""
+    return [(f["size"], f["complex"], f["comment"], sorted(f["attrs"].items()),
+             [(x["mux"], x["comment"], sorted(x["values"].items()), sorted(x["attrs"].items()), x["ranges"]) for x in f["signals"]])
+            for f in model["frames"]], model["post"]
 
 
 # ---- SYM ----
@@ -1447,16 +1455,8 @@ def sym_tie_inserts(I, rng):
     ]
 
 
-def compare_sym(out, db, err, I):
+def parse_model_sym(out):
     groups = core.parse_out(out)
-    if err:
-        return [] if groups[0][0] == 0 else ["reader raised " + err]
-    if groups[0][0] == 0:
-        return ["model: the end-of-file step raises, reader returned a matrix"]
-    diffs = []
-    txt = lambda c: I.text.get(c, "<%d>" % c)
-    if groups[0][1] != len(db.load_errors):
-        diffs.append("load_errors %d vs %d" % (groups[0][1], len(db.load_errors)))
     frames = []
     for g in groups[1:]:
         if g[0] == 10:
@@ -1464,11 +1464,31 @@ def compare_sym(out, db, err, I):
                                mux={g[i]: g[i + 1] for i in range(6, len(g), 2)}, signals=[]))
         else:
             frames[-1]["signals"].append(g[1:])
+    return groups[0], frames
+
+
+def attach_sym(out):
+    head, frames = parse_model_sym(out)
+    return [(f["size"], f["cycle"], sorted(f["mux"].items()), [x[5] for x in f["signals"]]) for f in frames]
+
+
+def compare_sym(out, db, err, I, fixed_errs=True):
+    """as compare_dbc: success/exception, frames by name and identifier, signals with name, placement, byte order, sign; the number of
+    load errors where the property fixes it.  DLC, cycle time, mux names and roles are tied relative to the clean file."""
+    head, frames = parse_model_sym(out)
+    if err:
+        return [] if head[0] == 0 else ["reader raised " + err]
+    if head[0] == 0:
+        return ["model: the end-of-file step raises, reader returned a matrix"]
+    diffs = []
+    txt = lambda c: I.text.get(c, "<%d>" % c)
+    if fixed_errs and head[1] != len(db.load_errors):
+        diffs.append("load_errors %d vs %d" % (head[1], len(db.load_errors)))
     if len(frames) != len(db.frames):
         return diffs + ["frame count %d vs %d" % (len(frames), len(db.frames))]
     for mf, rf in zip(frames, db.frames):
-        exp = (txt(mf["name"]), mf["id"], mf["ext"], mf["size"], mf["cycle"], {k: txt(v) for k, v in mf["mux"].items()})
-        got = (rf.name, rf.arbitration_id.id, bool(rf.arbitration_id.extended), int(rf.size), int(rf.cycle_time), dict(rf.mux_names))
+        exp = (txt(mf["name"]), mf["id"], mf["ext"])
+        got = (rf.name, rf.arbitration_id.id, bool(rf.arbitration_id.extended))
         if exp != got:
             diffs.append("frame %r vs %r" % (exp, got))
         if len(mf["signals"]) != len(rf.signals):
@@ -1477,14 +1497,10 @@ def compare_sym(out, db, err, I):
         for ms, rs in zip(mf["signals"], rf.signals):
             is_mux = ms[5] == -2
             name = (rf.name + "_MUX") if ms[0] <= -1000 else txt(ms[0])
-            if ms[0] <= -1000 and -ms[0] - 1000 != mf["name"]:
-                diffs.append("multiplexer signal of another frame name")
-            mux = rs.multiplex
-            mux = -1 if mux is None else (-2 if mux == "Multiplexor" else int(mux))
             # byte order (and hence the start bit notation) of the <frame>_MUX signal is C06's subject: not compared
-            exp = (name, ms[1] if not is_mux else None, ms[2], bool(ms[3]) if not is_mux else None, bool(ms[4]), ms[5])
+            exp = (name, ms[1] if not is_mux else None, ms[2], bool(ms[3]) if not is_mux else None, bool(ms[4]))
             got = (rs.name, int(rs.get_startbit()) if not is_mux else None, int(rs.size), bool(rs.is_little_endian) if not is_mux else None,
-                   bool(rs.is_signed), mux)
+                   bool(rs.is_signed))
             if exp != got:
                 diffs.append("frame %s signal %r vs %r" % (rf.name, exp, got))
     return diffs
@@ -1515,7 +1531,11 @@ def tie(chk, ok, rng, thorough):
         defs = dbc_defs(lines)
         ids = [d[0] for d in defs]
         ctx = dict(frame_ids=ids, sigs=[(d[0], s[1]) for d in defs for s in d[2]] or [(ids[0], "NoSig")], fresh_id=0x7F0 + k % 8)
-        ins = dbc_tie_inserts(ctx, I, rng)
+        # Only what the property quantifies over is tied: malformed lines (rejected by the strict line grammar) at admissible
+        # positions.  Valid extra statements, dangling references, positions inside a signal list and BA_ lines with a bare-word value
+        # (recorded finding; judged by the search) are behaviour the property leaves open: neither generated nor compared.
+        ins = [(g, t) for g, t in dbc_tie_inserts(ctx, I, rng)
+               if not dbc_strictly_valid(t) and not (g[0] in (3, 4) and g[-2] == 3)]
         cases.append((2001, [g for g, _ in toks], "dbc", "\n".join(t for _, t in toks) + "\n", dict(file="tie-dbc-%d" % k, inserted=[]), I))
         for j in range(per_file):
             m = 1 if j < len(ins) else rng.choice([1, 2, 3])
@@ -1523,7 +1543,8 @@ def tie(chk, ok, rng, thorough):
             seq = list(toks)
             rec = []
             for g, t in chosen:
-                p = rng.randrange(len(seq) + 1)          # any statement boundary, also inside a signal list
+                adm = [q for q in range(len(seq) + 1) if q == len(seq) or seq[q][0][0] != 2]     # never directly before an SG_ line
+                p = rng.choice(adm)
                 seq.insert(p, (g, t))
                 rec.append(t)
             cases.append((2001, [g for g, _ in seq], "dbc", "\n".join(t for _, t in seq) + "\n", dict(file="tie-dbc-%d" % k, inserted=rec), I))
@@ -1538,7 +1559,8 @@ def tie(chk, ok, rng, thorough):
         except Unsupported:
             chk.count("tie-sym-file-outside-language")
             continue
-        ins = sym_tie_inserts(I, rng)
+        # malformed lines only; `ID=<digits>` without the suffix h is left open by the property's reading (not malformed for sure)
+        ins = [(g, t) for g, t in sym_tie_inserts(I, rng) if not sym_strictly_valid(t) and not re.match(r"^ID=[0-9A-Fa-f]+$", t)]
         first = min(i for i, (_, _, mode) in enumerate(toks) if mode == "frames")
         base = [(g, t) for g, t, _ in toks]
         cases.append((2003, [g for g, _ in base], "sym", "\n".join(t for _, t in base) + "\n", dict(file="tie-sym-%d" % k, inserted=[]), I))
@@ -1554,13 +1576,28 @@ def tie(chk, ok, rng, thorough):
     lines_out = [core.fmt_case(cmd, groups if groups else [[9, 0]]) for cmd, groups, _, _, _, _ in cases]
     outs = core.run_model(lines_out)
     bad = 0
+    clean = {}          # (format, file) -> (model attachments, real normal form) of the file without insertions
     for (cmd, groups, fmt, text, info, I), o in zip(cases, outs):
         db, err = load(text.encode("latin1"), fmt)
         chk.count("tie-%s-cases" % fmt)
+        m_att = attach_dbc(parse_model_dbc(o)) if fmt == "dbc" else attach_sym(o)
+        r_nf = nf_of(db) if db is not None else None
+        if not info["inserted"]:
+            clean[(fmt, info["file"])] = (m_att, r_nf)
         if fmt == "dbc":
             diffs = compare_dbc(parse_model_dbc(o), db, err, I)
         else:
-            diffs = compare_sym(o, db, err, I)
+            # the number of load errors is fixed by the property only for statements that fail to parse (not for unknown keywords
+            # and ignored Type values, which a reader may or may not record)
+            fixed_errs = all(t.startswith(("[", "ID=", "DLC=", "CycleTime=", "Var=", "Mux=")) for t in info["inserted"])
+            diffs = compare_sym(o, db, err, I, fixed_errs)
+        if info["inserted"] and r_nf is not None and (fmt, info["file"]) in clean and clean[(fmt, info["file"])][1] is not None:
+            # 'as if the bad lines were absent', relative: model and reader must agree on WHETHER the faulted file reads like the clean one
+            m_same = m_att == clean[(fmt, info["file"])][0]
+            r_same = not matgen.diff(clean[(fmt, info["file"])][1], r_nf)
+            if m_same != r_same:
+                diffs.append("model: reads %s the clean file, reader: reads %s the clean file"
+                             % ("like" if m_same else "unlike", "like" if r_same else "unlike"))
         chk.case(("tie", fmt, text), bool(info["inserted"]))
         if diffs:
             bad += 1
